@@ -51,4 +51,8 @@ def import_biom():
         biom.cli._terribly_handle_brokenpipeerror = lambda: None
     except Exception:  # pragma: no cover
         pass
+    if os.environ.get('VERIF_NO_CALLSTYLE') != '1':
+        from vm import callstyle
+        import biom.table   # noqa: F401
+        callstyle.install(biom)
     return biom
